@@ -156,6 +156,13 @@ class RecWrapper:
             yield b
 
 
+class Thing:
+    """an arbitrary truthy object that is neither iterable nor file-like"""
+
+    def __repr__(self):
+        return '<Thing>'
+
+
 FALSY = {'none': None, 'estr': '', 'ebytes': b'', 'zero': 0, 'elist': [], 'edict': {}, 'false': False}
 OTHERS = {'int': 42, 'float': 1.5, 'object': None}
 
@@ -192,7 +199,7 @@ def build(o, rec):
             return [build(it['o'], rec) for it in o['items']]
         return (RecIterC if o['close'] else RecIter)(rec, o['id'], o['items'])
     if k == 'other':
-        return object() if o['v'] == 'object' else OTHERS[o['v']]
+        return Thing() if o['v'] == 'object' else OTHERS[o['v']]
     raise ValueError(k)
 
 
@@ -510,7 +517,7 @@ def enc_item(it):
 def enc_out(o):
     k = o['k']
     if k == 'falsy':
-        return [0]
+        return {'estr': [1, 0], 'ebytes': [2, 0]}.get(o['v'], [0])
     if k == 'str':
         return [1] + S(o['s'])
     if k == 'bytes':
